@@ -1149,6 +1149,9 @@ func RunSliceExpr(ctx *Task, expr *ast.SliceExpr) *errchain.PlError {
 			}
 			for i := startInt; i < endInt && i < length; i += stepInt {
 				result += string(str[i])
+				if stepInt >= length { // the next index is out of range; i += stepInt could overflow
+					break
+				}
 			}
 			ctx.Regs.ReturnAppend(V{result, ast.String})
 			return nil
@@ -1159,6 +1162,9 @@ func RunSliceExpr(ctx *Task, expr *ast.SliceExpr) *errchain.PlError {
 			}
 			for i := startInt; i > endInt && i >= 0; i += stepInt {
 				result += string(str[i])
+				if stepInt <= -length { // the next index is out of range; i += stepInt could overflow
+					break
+				}
 			}
 			ctx.Regs.ReturnAppend(V{result, ast.String})
 			return nil
@@ -1175,6 +1181,9 @@ func RunSliceExpr(ctx *Task, expr *ast.SliceExpr) *errchain.PlError {
 			result := make([]any, 0)
 			for i := startInt; i < endInt; i += stepInt {
 				result = append(result, list[i])
+				if stepInt >= length { // the next index is out of range; i += stepInt could overflow
+					break
+				}
 			}
 			ctx.Regs.ReturnAppend(V{result, ast.List})
 			return nil
@@ -1188,6 +1197,9 @@ func RunSliceExpr(ctx *Task, expr *ast.SliceExpr) *errchain.PlError {
 			result := make([]any, 0)
 			for i := startInt; i > endInt; i += stepInt {
 				result = append(result, list[i])
+				if stepInt <= -length { // the next index is out of range; i += stepInt could overflow
+					break
+				}
 			}
 			ctx.Regs.ReturnAppend(V{result, ast.List})
 			return nil
